@@ -5,7 +5,7 @@ package broadcast
 import "time"
 
 // verifLoopTicker is a no-op outside conformance-harness builds (see verif_hooks.go).
-func verifLoopTicker(*ltBroadcast, string, *time.Ticker) {}
+func verifLoopTicker(interface{}, string, *time.Ticker) {}
 
 // verifLoopDone is a no-op outside conformance-harness builds (see verif_hooks.go).
-func verifLoopDone(*ltBroadcast, string) {}
+func verifLoopDone(interface{}, string) {}
